@@ -74,6 +74,9 @@ def run(ctx, report):
                     probs.append(f"written index {df.index.name!r} came back as {list(got.index.names)}")
                 elif canon_series(pd.Series(got.index)) != canon_series(pd.Series(df.index)):
                     probs.append(f"index values {list(got.index)[:5]} differ from {list(df.index)[:5]}")
+            if isinstance(df.index, pd.RangeIndex) and wi is None and not named_index and (df.index.start, df.index.step) != (0, 1) and len(got) == len(df):
+                if list(got.index) != list(df.index):
+                    probs.append(f"range index {df.index!r} came back as {got.index!r}")
             if list(got.columns) != list(exp.columns):
                 probs.append(f"columns {list(got.columns)} != {list(exp.columns)}")
             elif len(got) != len(exp):
